@@ -73,8 +73,8 @@ class C07(Check):
         """line numbers of the listed statements (from the ast translator; no Lean involved)"""
         self.extract = sites_tr.extract(common.REPO)
         self.trace_funcs, self.yield_lines = set(), set()
-        self.anchors = [(rel, span[2], span[1]) for rel, qual, sts, span in self.extract
-                        if span is not None and not rel.endswith("util.py")]
+        # anchors are found by name (function bodies located by the ast translator), never by hard-coded line numbers
+        self.anchors = [(rel, span[2], span[1]) for rel, qual, sts, span in self.extract if span is not None]
         for rel, qual, sts, span in self.extract:
             if span is None or not rel.endswith("recoco.py"): continue
             if qual.startswith("Lock.") or qual.startswith("_Lock"): continue        # sequential part: not traced
@@ -135,6 +135,7 @@ class C07(Check):
     def corpus(self):
         cases = []
         CL, SE, SX = {"o": "callLater"}, {"o": "syncEnter"}, {"o": "syncExit"}
+        SXE = {"o": "syncExitExc"}
         S0 = {"o": "schedule", "t": 0}
         for threaded in (False, True):
             base = [
@@ -143,7 +144,10 @@ class C07(Check):
                 {"users": [[1, 0]], "progs": [[SE, CL, SX], [S0, CL]]},
                 {"users": [[0], [1]], "progs": [[SE, SE, SX, SX, SE, SX], [S0, {"o": "schedule", "t": 1}], [CL]]},
                 {"users": [[4, 1, 4, 0], [3, 0]], "progs": [[S0], [{"o": "schedule", "t": 1}, S0]]},     # tasks waking each other from their slices
-                {"users": [[2, 1, 2, 0]], "progs": [[S0, CL], [S0]]},                                     # callLater from cooperative code and from threads
+                {"users": [[2, 1, 2, 0]], "progs": [[S0, CL], [S0]]},
+                {"users": [[1, 1, 0]], "progs": [[SE, SE, SXE, S0, CL, SX], [S0, CL, S0]]},                 # inner level left by a caught exception
+                {"users": [[1, 0]], "progs": [[SE, SE, SE, SXE, CL, SXE, S0, SX], [CL, S0]]},               # depth 3, two inner levels by exception
+                {"users": [[1, 0]], "progs": [[SE, SE, SX, S0, SE, SXE, CL, SX], [S0, CL]]},                # inner left normally, then re-entered                                     # callLater from cooperative code and from threads
             ]
             for b in base:
                 for seed in range(3):
@@ -151,6 +155,7 @@ class C07(Check):
                                   "sched": {"type": "pct", "seed": seed, "d": 2, "k": 150}})
                 cases.append({"kind": "threads", "threaded": threaded, "users": b["users"], "progs": b["progs"],
                               "sched": {"type": "preempt", "points": []}})
+        cases += self.burst_cases([1, 2, 1023, 1024, 1025])
         if common.Findings().match(self.id, HUBRACE_KEY):
             # the reproduction of schedule_hub_race_defect on the real classes; exercised (and reported as KNOWN-FINDING) once the
             # finding is listed in known_findings.json — until then it is available through `--replay corpus/C07/hubrace.json`
@@ -158,6 +163,17 @@ class C07(Check):
         cases += self.lock_corpus()
         cases += [{"kind": "pinger", "ops": ops} for ops in ([0, 1], [0, 0, 0, 1, 0, 1], [0] * 5 + [1, 0, 1, 0, 0, 1])]
         return cases
+
+    def burst_cases(self, sizes):
+        """a foreign thread hands over N calls in one go, before the scheduler thread gets to drain (the thread runs first and
+        uninterrupted), N around the pinger's read size: all N must run and nothing may block"""
+        out = []
+        for n in sizes:
+            for threaded in (False, True):
+                out.append({"kind": "threads", "threaded": threaded, "users": [], "progs": [[{"o": "callLater"}] * n],
+                            "budget": 40 * n + 4000,
+                            "sched": {"type": "preempt", "points": [], "order": ["F0", "S", "H"]}})
+        return out
 
     def gen_threads_case(self, rng, big=False):
         nf = rng.choice([1, 2, 2, 3]) if not big else rng.choice([3, 4, 5])
@@ -181,10 +197,10 @@ class C07(Check):
                 c = rng.random()
                 if c < 0.4: p.append({"o": "callLater"})
                 elif c < 0.65 and nu: p.append({"o": "schedule", "t": rng.randrange(nu)})
-                elif c < 0.85: p.append({"o": "syncEnter"}); depth += 1
-                elif depth: p.append({"o": "syncExit"}); depth -= 1
+                elif c < 0.85 and depth < 3: p.append({"o": "syncEnter"}); depth += 1
+                elif depth: p.append({"o": rng.choice(["syncExit", "syncExitExc"])}); depth -= 1
                 else: p.append({"o": "callLater"})
-            p += [{"o": "syncExit"}] * depth
+            p += [{"o": rng.choice(["syncExit", "syncExit", "syncExitExc"])} for _ in range(depth)]
             progs.append(p)
         typ = rng.random()
         if typ < 0.75:
@@ -198,6 +214,8 @@ class C07(Check):
         for i in range(n):
             yield self.gen_threads_case(rng, big=(i % 10 == 9))
         if tier == "thorough":
+            for c in self.burst_cases([2047, 2048, 2049]):
+                yield c
             for c in self.exhaustive_cases(rng):
                 yield c
         for c in self.gen_lock_cases(rng, 60 if tier == "quick" else 600):
@@ -206,8 +224,12 @@ class C07(Check):
             yield {"kind": "pinger", "ops": [rng.choice([0, 0, 1]) for _ in range(rng.randrange(1, 14))]}
 
     def search_cases(self, rng, tier):
+        locks = self.gen_lock_cases(rng, 10 ** 9)
+        i = 0
         while True:
-            yield self.gen_threads_case(rng, big=rng.random() < 0.2)
+            i += 1
+            if i % 3 == 0: yield next(locks)
+            else: yield self.gen_threads_case(rng, big=rng.random() < 0.2)
 
     # ------------------------------------------------------------------ bounded exhaustive schedules (thorough)
     def exhaustive_cases(self, rng):
@@ -273,7 +295,7 @@ class C07(Check):
         t = sched["type"]
         if t == "pct": return ft.PCTChooser(random.Random(sched["seed"]), sched["d"], sched["k"])
         if t == "random": return ft.RandomChooser(random.Random(sched["seed"]))
-        if t == "preempt": return ft.PreemptChooser(["S", "H"] + ["F%d" % i for i in range(64)],
+        if t == "preempt": return ft.PreemptChooser(sched.get("order") or (["S", "H"] + ["F%d" % i for i in range(64)]),
                                                     {int(s): n for s, n in sched["points"]})
         raise ValueError(t)
 
@@ -286,18 +308,27 @@ class C07(Check):
         if isinstance(covobj, common.AnchorCoverage): cover = covobj.hit
         trace_funcs, yield_lines = self.trace_funcs, self.min_yield_lines()
         if cover is not None:                                 # coverage wants every line of the anchored files
-            trace_funcs = _AllOf({self.rfile, self.pcore.__file__})
-        ctl = ft.Controller(chooser, trace_funcs=trace_funcs, yield_lines=yield_lines, max_steps=MAX_STEPS,
+            trace_funcs = _AllOf({self.rfile, self.pcore.__file__, self.util.__file__})
+        ctl = ft.Controller(chooser, trace_funcs=trace_funcs, yield_lines=yield_lines, max_steps=case.get("budget", MAX_STEPS),
                             frame_files=(self.rfile,), cover=cover)
         def namer(th):
             n = getattr(th._target, "__name__", "")
             return "H" if n == "_threadProc" else "S" if n == "run" else None
         prim = ft.make_primitives(ctl, namer)
         saved = (recoco.threading, recoco.Thread, recoco.Queue, recoco.select, util.makePinger, recoco.defaultScheduler)
+        saved_os = util.os
         sys_trace_saved = sys.gettrace()
         sys.settrace(None)
         recoco.threading, recoco.Thread, recoco.Queue, recoco.select = prim.threading, prim.Thread, prim.Queue, prim.select_module
-        util.makePinger = lambda: prim.Pinger()
+        # the REAL pinger class (pox.lib.util.make_pinger -> PipePinger) on a virtual pipe: util's `os` is replaced
+        vos = prim.VirtualOS()
+        util.os = vos
+        real_make = util.make_pinger
+        def make_tagged():
+            p = real_make()
+            p.fsel_readable = lambda: vos.pending(p._r) > 0
+            return p
+        util.makePinger = make_tagged
         st = _RunState()
         try:
             sched = recoco.Scheduler(isDefaultScheduler=True, startInThread=True, daemon=True,
@@ -374,11 +405,16 @@ class C07(Check):
                         s.__enter__()
                         depth += 1
                         insec.add(tid)
-                    elif o == "syncExit":
+                    elif o in ("syncExit", "syncExitExc"):
                         s = sched.synchronized()
                         depth -= 1
                         if depth == 0: insec.discard(tid)
-                        s.__exit__(None, None, None)
+                        if o == "syncExit": s.__exit__(None, None, None)
+                        else:
+                            # this level of `with scheduler.synchronized():` is left by an exception that the enclosing code
+                            # catches: the context manager sees the exception and does not suppress it
+                            exc = ValueError("left by exception")
+                            s.__exit__(ValueError, exc, None)
                 st.completed[i] = True
             st.completed = [False] * nf
             fthreads = [ctl.spawn("F%d" % i, functools.partial(foreign, i, p)) for i, p in enumerate(case["progs"])]
@@ -447,6 +483,7 @@ class C07(Check):
             if getattr(self, "_redir", None) is not None:
                 self._redir.close(); self._redir = None
             (recoco.threading, recoco.Thread, recoco.Queue, recoco.select, util.makePinger, recoco.defaultScheduler) = saved
+            util.os = saved_os
             sys.settrace(sys_trace_saved)
         if leaked:
             common.log("C07: managed threads did not unwind: %s" % leaked)
@@ -503,6 +540,14 @@ class C07(Check):
                 for init in ([0, 0], [1, 0]):
                     if init[0] and sum(combo) % 3: continue
                     cases.append({"kind": "lock", "init": init, "progs": [progs2[i] for i in combo], "extrel": init[0]})
+        # try-lock histories: a holder, a task whose non-blocking acquire fails (and that goes on without the lock), later
+        # blocking acquirers; on 1 and 2 locks
+        hold = [["acq", 0, 1], ["yield"], ["rel", 0]]
+        tryl = [["acq", 0, 0], ["yield"], ["yield"]]
+        late = [["yield"], ["yield"], ["acq", 0, 1], ["rel", 0]]
+        for progs in ([hold, tryl], [hold, tryl, late], [hold, tryl, tryl, late], [tryl, hold, late],
+                      [hold, [["acq", 0, 0], ["acq", 1, 1], ["yield"], ["rel", 1]], late, [["acq", 1, 0], ["yield"]]]):
+            cases.append({"kind": "lock", "init": [0, 0], "progs": progs, "extrel": 0})
         for combo in itertools.product([0, 1, 3], repeat=4):
             cases.append({"kind": "lock", "init": [0, 0], "progs": [progs2[i] for i in combo], "extrel": 0})
         return cases
@@ -515,7 +560,10 @@ class C07(Check):
                 p, held = [], []
                 for _ in range(rng.randrange(1, 7)):
                     c = rng.random()
-                    if c < 0.45: l = rng.randrange(nl); p.append(["acq", l, 1 if rng.random() < 0.8 else 0]); held.append(l)
+                    if c < 0.45:
+                        l = rng.randrange(nl); b = 1 if rng.random() < 0.65 else 0
+                        p.append(["acq", l, b])
+                        if b: held.append(l)                      # after a try-lock the task does not assume it owns the lock
                     elif c < 0.8 and held: p.append(["rel", held.pop(rng.randrange(len(held)))])
                     elif c < 0.9: p.append(["yield"])
                     else: p.append(["rel", rng.randrange(nl)])
@@ -759,7 +807,8 @@ class C07(Check):
     def model_request2(self, case, obs):
         k = case["kind"]
         if k == "threads":
-            return {"op": "replay", "threaded": bool(case["threaded"]), "users": case["users"], "progs": case["progs"],
+            progs = [[({"o": "syncExit"} if op["o"] == "syncExitExc" else op) for op in p] for p in case["progs"]]
+            return {"op": "replay", "threaded": bool(case["threaded"]), "users": case["users"], "progs": progs,
                     "trace": self.map_trace(obs["raw"])}
         if k == "lock":
             ops = []
@@ -847,8 +896,11 @@ class C07(Check):
         return None
 
     def oracle_lock(self, case, obs):
+        """at most one holder; a release hands the lock to exactly one task that is WAITING for it (parked by a blocking
+        acquire and not yet resumed) — a task that is not waiting never becomes owner; nobody waits while the lock is free"""
         nl = len(case["init"])
         owner = [("flag" if b else None) for b in case["init"]]      # who was last told it owns the lock
+        parked = [set() for _ in range(nl)]                           # tasks whose blocking acquire parked them, not yet woken
         for s in obs["steps"]:
             li = s["l"]
             if s["k"] == "acq":
@@ -857,19 +909,27 @@ class C07(Check):
                     owner[li] = s["t"]
                 elif s["res"] == "parked":
                     if owner[li] is None: return "a task waits although the lock is free"
+                    if not s["b"]: return "a non-blocking acquire parked the task"
+                    parked[li].add(s["t"])
+                else:
+                    if s["b"]: return "a blocking acquire came back without the lock"
             else:
                 if s["res"] == "RuntimeError":
                     if owner[li] is not None: return "release refused although the lock is held"
                     continue
                 if not s.get("ret"): return "release did not keep the releasing task running"
-                before_w = len(s["waiting"]) + (0 if s["woken"] is None else 1 if isinstance(s["woken"], int) else len(s["woken"]))
-                if before_w and not isinstance(s["woken"], int): return "release with waiters handed the lock to %s" % (s["woken"],)
-                if isinstance(s["woken"], int):
-                    if s["holder"] != s["woken"] or s["scheduled"] != [s["woken"]]: return "woken waiter is not the new holder / not scheduled exactly once"
-                    owner[li] = s["woken"]
+                w = s["woken"]
+                if parked[li] and not isinstance(w, int): return "release with waiters handed the lock to %s" % (w,)
+                if isinstance(w, int):
+                    if w not in parked[li]: return "release handed the lock to a task that is not waiting for it"
+                    if s["holder"] != w or s["scheduled"] != [w]: return "woken waiter is not the new holder / not scheduled exactly once"
+                    parked[li].discard(w)
+                    owner[li] = w
                 else:
+                    if w is not None: return "release with waiters handed the lock to %s" % (w,)
                     if s["scheduled"]: return "release without waiters scheduled a task"
                     owner[li] = None
+            if s["waiting"] != sorted(parked[li]): return "the lock's waiter set is not the set of tasks waiting for it"
             if s["holder"] is None and s["waiting"]: return "waiters remain while the lock is free"
             if s["holder"] != owner[li]: return "lock's holder differs from the task that was told it owns it"
         return None
@@ -895,7 +955,7 @@ class C07(Check):
                     q = p[:j] + p[j + 1:]
                     d = 0; ok = True
                     for op in q:
-                        d += 1 if op["o"] == "syncEnter" else -1 if op["o"] == "syncExit" else 0
+                        d += 1 if op["o"] == "syncEnter" else -1 if op["o"] in ("syncExit", "syncExitExc") else 0
                         if d < 0: ok = False
                     if ok and d == 0:
                         c = json.loads(json.dumps(case)); c["progs"][i] = q; yield c
